@@ -393,6 +393,9 @@ CORPUS: list[dict[str, Any]] = [
 def run_cases(ctx: Any, cases: list[dict[str, Any]]) -> None:
     i = 0
     while i < len(cases):
+        if len(ctx.failures) >= 40 or len(ctx.mismatches) >= 40:
+            ctx.note("stopped_early", "40 failing cases collected")
+            return
         with S.Rig() as rig:
             b = Bench(ctx, rig)
             for case in cases[i : i + 400]:
